@@ -251,7 +251,13 @@ func c01specs() []gw.Spec {
 		gw.EvC("PUBLISH(q-1,predef 1) before CONNECT", gw.Publish(1, 1, 0, 3, false, false, "a")),
 		gw.EvC("PUBLISH(q-1,predef 2) before CONNECT", gw.Publish(1, 2, 0, 3, false, false, "a")),
 	}, connectSetup("c1", 30)...)
+	// earlier publishes still unacknowledged by the broker: a retransmission (DUP, same message id) and any other
+	// publish under the pending ids is forwarded like every accepted PUBLISH
+	pend := append(connectSetup("c1", 30),
+		gw.EvC("PUBLISH(q1,predef 1,mid 1) unanswered", gw.Publish(1, 1, 1, 1, false, false, "a")),
+		gw.EvC("PUBLISH(q1,short xy,mid 2) unanswered", gw.Publish(2, gw.ShortID("xy"), 2, 1, false, false, "a")))
 	return []gw.Spec{{Name: "c1", Cfg: cfg, Setup: connectSetup("c1", 30), NewMonitor: mon},
+		{Name: "c1 with unacknowledged publishes", Cfg: cfg, Setup: pend, Depth: 1, NewMonitor: mon},
 		{Name: "c1 after anonymous publishes", Cfg: cfg, Setup: anon, Depth: 1, NewMonitor: mon}}
 }
 
@@ -263,7 +269,7 @@ func TestC01(t *testing.T) {
 	}
 	rep := explore.NewReport("C01", "model_checking")
 	gw.BFSCheck(rep, specs, gw.BFSOpts{Test: "TestC01"}, 150, 900)
-	rep.Coverage["rule"] = "BFS over registration histories (REGISTER x2, SUBSCRIBE plain with and without SUBACK, wildcard, predefined, broker PUBLISH on a new topic, REGACK accepted/rejected) to depth 2 (thorough 3) after a connect (and, to depth 1, after a connect that follows QoS -1 publishes on predefined ids by the still anonymous client); in every reached state every PUBLISH of DUP{0,1} x QoS{0..3} x Retain{0,1} x TopicIdType{0..3} x TopicId{0,1,2,3,'xy',0xFFFF} x MsgId{0,1,2} x payload{empty,'p'} plus payload sizes {246..250,7168}; the monitor keeps the client-side view of what each topic id denotes and checks the MQTT byte stream with an independent parser"
+	rep.Coverage["rule"] = "BFS over registration histories (REGISTER x2, SUBSCRIBE plain with and without SUBACK, wildcard, predefined, broker PUBLISH on a new topic, REGACK accepted/rejected) to depth 2 (thorough 3) after a connect (and, to depth 1, after a connect that follows QoS -1 publishes on predefined ids by the still anonymous client, and after two QoS 1 publishes the broker has not acknowledged yet); in every reached state every PUBLISH of DUP{0,1} x QoS{0..3} x Retain{0,1} x TopicIdType{0..3} x TopicId{0,1,2,3,'xy',0xFFFF} x MsgId{0,1,2} x payload{empty,'p'} plus payload sizes {246..250,7168}; the monitor keeps the client-side view of what each topic id denotes and checks the MQTT byte stream with an independent parser"
 	rep.Assumptions = []string{"default schedule", "an id the gateway has announced but the client has not yet accepted (REGISTER in flight, SUBSCRIBE without SUBACK) may or may not denote: both outcomes accepted"}
 	rep.Finish()
 }
